@@ -1,58 +1,46 @@
-import QuinnModel.Lemmas.StreamsC17
+import QuinnModel.Lemmas.StreamsC05Facts
 /-
 C17 — 0-RTT data is delivered once if accepted and vanishes if rejected: the stream-layer part.
 (property theorems only)
 
-`zero_rtt_rejected` followed by `set_params p` must leave the sender-visible state (`State.proj`:
-stream numbering, stream-count and data credit, send-window accounting, queues) exactly as
-`StreamsState::new` followed by `set_params p` does; after a Retry, `retransmit_all_for_0rtt` must
+`zero_rtt_rejected` followed by `set_params p` leaves the sender-visible state (`State.proj`:
+stream numbering, stream-count and data credit, send-window accounting, blocked flags, queues)
+exactly as `StreamsState::new` followed by `set_params p` does; after a Retry, `retransmit_all_for_0rtt` must
 leave nothing marked as sent.
 -/
 namespace QM.Props.C17
 open QM QM.Streams
 
-/-- after a rejection the connection behaves like a fresh one: same sender-visible projection -/
-def rejected_is_fresh_statement : Prop :=
-  ∀ (c : Config) (h : Hist) (s s1 s0 : State) (p : Params),
-    Reach c h s → s.zeroRttRejected = some s1 → State.new c = some s0 →
-    (s1.setParams p).proj = (s0.setParams p).proj
-
-/-- what holds on the current tree: the projection is the fresh one except for `max_data`
-    (max of the remembered and the new value, F10) and `unacked_data` (kept, F11).  Hence the full
-    statement holds exactly for histories with `s.maxData ≤ p.initialMaxData` and `s.unackedData = 0`. -/
-theorem rejected_is_fresh_partial {c : Config} {s s1 s0 : State} (p : Params)
+/-- after a rejection the connection behaves like a fresh one: for EVERY state, `zero_rtt_rejected` +
+    `set_params p` give the sender-visible projection (stream numbering, stream-count credit, initial
+    stream limits, max_data, data_sent, unacked_data, send_streams, blocked lists and flags, pending
+    queue) of `StreamsState::new` + `set_params p`, whatever was remembered or written before -/
+theorem rejected_is_fresh {c : Config} {s s1 s0 : State} (p : Params)
     (hr : s.zeroRttRejected = some s1) (h0 : State.new c = some s0) :
-    (s1.setParams p).proj =
-      { (s0.setParams p).proj with
-        maxData := Nat.max s.maxData p.initialMaxData, unackedData := s.unackedData } := by
+    (s1.setParams p).proj = (s0.setParams p).proj := by
   rw [rejected_proj hr p, fresh_proj h0 p]
-
-theorem rejected_is_fresh_iff {c : Config} {s s1 s0 : State} (p : Params)
-    (hr : s.zeroRttRejected = some s1) (h0 : State.new c = some s0) :
-    (s1.setParams p).proj = (s0.setParams p).proj ↔ (s.maxData ≤ p.initialMaxData ∧ s.unackedData = 0) := by
-  rw [rejected_proj hr p, fresh_proj h0 p]
-  simp only [Proj.mk.injEq, true_and, and_true, natMax_eq]
-  omega
 
 /-- none of the streams opened during the rejected 0-RTT phase survives in the send map -/
 theorem rejected_no_local_streams {s s' : State} (h : s.zeroRttRejected = some s') (d : Dir) (j : Nat)
     (hj : j < s.next.get d) : s'.send.find? (sidNew s.side d j) = none :=
   zeroRttRejected_no_local h d j hj
 
-/-- F10 + F11 witnesses refute the full statement -/
-theorem rejected_is_fresh_counterexample : ¬ rejected_is_fresh_statement := by
-  intro hst
-  have r := reach_start ⟨.client, 0, 0, 1000000, 1000000, 1000000⟩
-    ⟨100000, 100000, 100000, 10, 10, 1000000⟩ (by decide)
-  have := hst _ _ _ ((State.zeroRttRejected _).get (by decide)) ((State.new _).get (by decide))
-    ⟨100000, 100000, 100000, 10, 10, 2000⟩ r (Option.some_get _).symm (Option.some_get _).symm
-  revert this
-  decide
+/-- and in a real 0-RTT history (only early operations before the rejection) nothing at all is left
+    of the sending side: the whole sender view — core accounting and the set of instantiated sending
+    halves with their offsets and limits — is that of a fresh state with the new parameters -/
+theorem rejected_sender_view_is_fresh {c : Config} {h : Hist} {s s1 s0 : State} (r : Reach c h s)
+    (he : EarlyHist c.side h) (hz : s.zeroRttRejected = some s1) (h0 : State.new c = some s0) (p : Params) :
+    (({ s1 with rtx := {} } : State).setParams p).vw = (s0.setParams p).vw :=
+  rejected_vw_fresh r he hz h0 p
 
-/-- F11 alone: same parameters before and after, 13 bytes written in the rejected phase -/
-theorem rejected_unacked_counterexample :
-    (runOps State.initial [] F11_ops).map (fun r => (r.1.proj.unackedData, r.1.proj.dataSent, r.1.proj.next)) =
-      some (13, 0, ⟨0, 0⟩) := by decide
+/-- the former F10/F11 history (remembered max_data 1 000 000, 13 bytes written in 0-RTT, rejected,
+    new max_data 2 000): the state is the fresh one -/
+theorem rejected_regression_F10_F11 :
+    (runOps State.initial [] [.new ⟨.client, 0, 0, 1000000, 1000000, 1000000⟩,
+        .params ⟨100000, 100000, 100000, 10, 10, 1000000⟩, .open_ .bi, .write 0 13, .rejected,
+        .params ⟨100000, 100000, 100000, 10, 10, 2000⟩]).map (fun r => r.1.proj) =
+    (runOps State.initial [] [.new ⟨.client, 0, 0, 1000000, 1000000, 1000000⟩,
+        .params ⟨100000, 100000, 100000, 10, 10, 2000⟩]).map (fun r => r.1.proj) := by decide
 
 /-- after `retransmit_all_for_0rtt` every stream the client opened that has unacknowledged data or a
     pending FIN has nothing marked as sent: all of it will be transmitted again -/
